@@ -231,6 +231,12 @@ fn print(tag: &str, metas: Vec<MetaType>) {
 }
 fn main() {
     print("", corpus());
+    // the same corpus AGAIN in a fresh registry of the same thread, and once more in the opposite order: what a
+    // registry produces must not depend on what the thread (or process) converted before
+    print("second", corpus());
+    let mut rev = corpus();
+    rev.reverse();
+    print("rev", rev);
     #[cfg(feature = "bit-vec")]
     {
         use bitvec::{order::{Lsb0, Msb0}, vec::BitVec};
